@@ -1,4 +1,5 @@
 import Lemmas.SafeFile
+import Lemmas.SafeFileTemp
 /-! # C14 — safe file replacement is all-or-nothing at every crash or fault point
 
 Property theorems only (helper lemmas: `Lemmas/SafeFile.lean`; executable model: `Model/SafeFile.lean`).
@@ -416,5 +417,321 @@ example : (writeFile 1 0 4 0o644 [[1, 2, 3], [4, 5, 6]] .propagate .none).2 =
 example : (Fault.write 1).fires 4 [[1, 2, 3], [4, 5, 6]] := by
   show 1 < (chunks 4 [[1, 2, 3], [4, 5, 6]]).length
   decide
+
+/-! ## Extension: the name handling of `CreateWithMode`, the loop of `CreateTemp`, a failing unlink
+
+`createWithMode code tmpdir filename mode rands faults fs` transcribes `safe.CreateWithMode` + `internal.CreateTemp`:
+`code` is any naming of paths, `rands` the stream of numbers the random source yields, `faults` an arbitrary fault
+assignment for the `openat`s (EEXIST on a free name, or another error), `fs` the file system. `writeFileFull` is the
+whole of `WriteFileWithMode` on top of it, with `unlinkFails` for the `Remove` of the cleanup path.  All theorems
+quantify over every directory content, every stream of random numbers and every fault assignment. -/
+
+/-- **Create opens nothing that exists**: `CreateWithMode` issues at most 1000 system calls; each is an
+    `openat(O_CREAT|O_EXCL)` that fails without effect, except possibly the last, which creates a name that was FREE
+    (absent from the directory) — so no existing entry, the destination or a look-alike of a temporary name, is
+    opened, truncated or removed: every existing entry is unchanged after every prefix of the calls.  On success the
+    name created is one of the first 1000 candidates and the state is the old one plus that empty file; on failure
+    nothing has changed at all. -/
+theorem create_touches_no_existing_entry (u : Nat) (code : Str → Path) (tmpdir filename : Str) (mode : Nat)
+    (rands : Nat → Nat) (faults : Nat → Option OpenFault) (fs : FS) :
+    (createWithMode code tmpdir filename mode rands faults fs).2.length ≤ 1000 ∧
+    (∀ q k, fs q ≠ none → run2 u fs ((createWithMode code tmpdir filename mode rands faults fs).2.take k) q = fs q) ∧
+    (∀ f, (createWithMode code tmpdir filename mode rands faults fs).1 = .ok f →
+      fs f.tmp = none ∧
+      (∃ c j, validName filename = some c ∧ j < 1000 ∧ f.dst = code c ∧
+        f.tmp = code (tempName tmpdir (dirOf c) safePattern (rands j))) ∧
+      (∀ a ∈ (createWithMode code tmpdir filename mode rands faults fs).2,
+        a.isFail = true ∨ a = .base (.createExcl f.tmp mode)) ∧
+      run2 u fs (createWithMode code tmpdir filename mode rands faults fs).2 =
+        fs.set f.tmp (some ⟨[], lessUmask mode u⟩)) ∧
+    ((∀ f, (createWithMode code tmpdir filename mode rands faults fs).1 ≠ .ok f) →
+      (∀ a ∈ (createWithMode code tmpdir filename mode rands faults fs).2, a.isFail = true) ∧
+      run2 u fs (createWithMode code tmpdir filename mode rands faults fs).2 = fs) := by
+  obtain ⟨fails, hfail, hlen, hcase⟩ := createWithMode_spec code tmpdir filename mode rands faults fs
+  rcases hcase with ⟨c, j, hv, hj, hlj, heq, hfree, _⟩ | ⟨hno, hacts⟩
+  · rw [heq]
+    refine ⟨by simp; omega, ?_, ?_, ?_⟩
+    · intro q k hq
+      rw [run2_take_fails_append u fs fails _ hfail]
+      cases hk : k - fails.length with
+      | zero => simp [run2]
+      | succ n =>
+        simp only [List.take_succ_cons, List.take_nil, run2, applyAct2, applyAct]
+        have hne : q ≠ code (tempName tmpdir (dirOf c) safePattern (rands j)) := by
+          intro e; rw [e] at hq; exact hq hfree
+        simp [FS.set, hne]
+    · intro f hf
+      simp only [CreateRes.ok.injEq] at hf
+      subst hf
+      refine ⟨hfree, ⟨c, j, hv, hj, rfl, rfl⟩, ?_, ?_⟩
+      · intro a ha
+        rcases List.mem_append.mp ha with h | h
+        · exact Or.inl (hfail a h)
+        · simp at h; exact Or.inr h
+      · rw [run2_append, run2_fails u fs fails hfail]
+        simp [run2, applyAct2, applyAct]
+    · intro hno; exact absurd rfl (hno _)
+  · rw [hacts]
+    refine ⟨hlen, ?_, ?_, ?_⟩
+    · intro q k _
+      rw [run2_fails u fs _ (fun a ha => hfail a (List.mem_of_mem_take ha))]
+    · intro f hf; exact absurd hf (hno f)
+    · intro _; exact ⟨hfail, run2_fails u fs fails hfail⟩
+
+/-- the temporary file never is the destination when the destination exists (its name is not free) -/
+theorem temp_is_not_existing_destination (code : Str → Path) (tmpdir filename : Str) (mode : Nat)
+    (rands : Nat → Nat) (faults : Nat → Option OpenFault) (fs : FS) (f : File)
+    (h : (createWithMode code tmpdir filename mode rands faults fs).1 = .ok f) (hd : fs f.dst ≠ none) :
+    f.tmp ≠ f.dst := by
+  have := ((create_touches_no_existing_entry 0 code tmpdir filename mode rands faults fs).2.2.1 f h).1
+  intro e; rw [e] at this; exact hd this
+
+/-- **the loop gives up after exactly 1000 attempts**: when each of the first 1000 candidates collides (the name exists,
+    or EEXIST is injected) the call returns `os.ErrExist` after 1000 failed `openat`s and the directory is unchanged -/
+theorem create_gives_up_after_1000 (u : Nat) (code : Str → Path) (tmpdir filename c : Str) (mode : Nat)
+    (rands : Nat → Nat) (faults : Nat → Option OpenFault) (fs : FS) (hv : validName filename = some c)
+    (hall : ∀ j, j < 1000 → faults j ≠ some .other ∧
+      (faults j = some .exist ∨ (fs (code (tempName tmpdir (dirOf c) safePattern (rands j)))).isSome = true)) :
+    (createWithMode code tmpdir filename mode rands faults fs).1 = .temp .errExist ∧
+    (createWithMode code tmpdir filename mode rands faults fs).2.length = 1000 ∧
+    (∀ a ∈ (createWithMode code tmpdir filename mode rands faults fs).2, ∃ p, a = Act2.openFail p mode true) ∧
+    run2 u fs (createWithMode code tmpdir filename mode rands faults fs).2 = fs := by
+  have hns : hasSep safePattern = false := by decide
+  obtain ⟨h1, h2, h3⟩ := tempLoop_exhaust mode (fun i => code (tempName tmpdir (dirOf c) safePattern (rands i))) faults fs
+    1000 0 rfl (by omega) (fun j _ hj => hall j hj)
+  unfold createWithMode createTemp
+  simp only [hv, hns, Bool.false_eq_true, if_false]
+  generalize tempLoop mode (fun i => code (tempName tmpdir (dirOf c) safePattern (rands i))) faults fs 1000 0 = r
+    at h1 h2 h3
+  obtain ⟨r1, r2⟩ := r
+  simp only at h1 h2 h3
+  subst h1
+  refine ⟨rfl, h2, h3, ?_⟩
+  apply run2_fails
+  intro a ha; obtain ⟨p, rfl⟩ := h3 a ha; rfl
+
+/-- a bad name is refused before any system call -/
+theorem invalid_name_no_syscall (code : Str → Path) (tmpdir filename : Str) (mode : Nat) (rands : Nat → Nat)
+    (faults : Nat → Option OpenFault) (fs : FS) (hv : validName filename = none) :
+    createWithMode code tmpdir filename mode rands faults fs = (.invalid, []) := by
+  simp [createWithMode, hv]
+
+/-- a pattern with a path separator is refused by `CreateTemp` before any system call -/
+theorem pattern_with_separator_no_syscall (code : Str → Path) (tmpdir dir pat : Str) (mode : Nat) (rands : Nat → Nat)
+    (faults : Nat → Option OpenFault) (fs : FS) (h : hasSep pat = true) :
+    createTemp code tmpdir dir pat mode rands faults fs = (.errSep, []) := by
+  simp [createTemp, h]
+
+/-- **all-or-nothing for the complete call** — name check, `CreateTemp` with any collisions and faults, callback of
+    any behaviour, any fault of write/flush/close/rename, and a `Remove` that fails or not: after every prefix of the
+    system calls the destination holds its old state or the complete new content.  The one hypothesis: the
+    destination exists, or no candidate name IS the destination's name (see the example after the theorems: an absent
+    destination called `safe123` can be hit by the random name `safe123`). -/
+theorem full_dest_old_or_new (u : Nat) (code : Str → Path) (tmpdir filename c : Str) (N mode : Nat)
+    (pieces : List Bytes) (cb : CbMode) (fault : Fault) (rands : Nat → Nat) (ofaults : Nat → Option OpenFault)
+    (unlinkFails : Bool) (fs : FS) (k : Nat) (hv : validName filename = some c)
+    (hclash : fs (code c) ≠ none ∨ ∀ j, code (tempName tmpdir (dirOf c) safePattern (rands j)) ≠ code c) :
+    run2 u fs ((writeFileFull code tmpdir filename N mode pieces cb fault rands ofaults unlinkFails fs).2.take k) (code c) =
+      fs (code c) ∨
+    run2 u fs ((writeFileFull code tmpdir filename N mode pieces cb fault rands ofaults unlinkFails fs).2.take k) (code c) =
+      some (newFile mode u pieces) := by
+  obtain ⟨fails, hfail, _, hcase⟩ := createWithMode_spec code tmpdir filename mode rands ofaults fs
+  rcases hcase with ⟨c', j, hv', _, _, heq, hfree, _⟩ | ⟨hno, hacts⟩
+  · rw [hv] at hv'; cases hv'
+    rw [writeFileFull_eq code tmpdir filename N mode pieces cb fault rands ofaults unlinkFails fs _ _ fails heq]
+    simp only
+    rw [run2_take_fails_append u fs fails _ hfail]
+    obtain ⟨k', hk'⟩ := mapU_prefix_sim u fs unlinkFails _ (writeFile_unlinkLast _ (code c) N mode pieces cb fault)
+      (k - fails.length)
+    rw [hk']
+    have hne : code (tempName tmpdir (dirOf c) safePattern (rands j)) ≠ code c := by
+      rcases hclash with h | h
+      · intro e; rw [e] at hfree; exact h hfree
+      · exact h j
+    exact dest_old_or_new_at_every_prefix u fs _ (code c) hne N mode pieces cb fault k'
+  · left
+    have : (writeFileFull code tmpdir filename N mode pieces cb fault rands ofaults unlinkFails fs).2 = fails := by
+      unfold writeFileFull
+      generalize createWithMode code tmpdir filename mode rands ofaults fs = r at hno hacts
+      obtain ⟨r1, r2⟩ := r
+      cases r1 with
+      | ok f => exact absurd rfl (hno f)
+      | invalid => exact hacts
+      | temp e => exact hacts
+    rw [this, run2_fails u fs _ (fun a ha => hfail a (List.mem_of_mem_take ha))]
+
+/-- **a failing unlink changes nothing but what remains**: the result of the complete call is the same with and
+    without the unlink fault (inside `WriteFileWithMode` the error of `Remove` is never the one reported — there
+    always is an earlier error, and that one is returned) -/
+theorem full_result_independent_of_unlink (code : Str → Path) (tmpdir filename : Str) (N mode : Nat)
+    (pieces : List Bytes) (cb : CbMode) (fault : Fault) (rands : Nat → Nat) (ofaults : Nat → Option OpenFault) (fs : FS) :
+    (writeFileFull code tmpdir filename N mode pieces cb fault rands ofaults true fs).1 =
+    (writeFileFull code tmpdir filename N mode pieces cb fault rands ofaults false fs).1 := by
+  obtain ⟨fails, _, _, hcase⟩ := createWithMode_spec code tmpdir filename mode rands ofaults fs
+  rcases hcase with ⟨c', j, _, _, _, heq, _, _⟩ | ⟨hno, _⟩
+  · rw [writeFileFull_eq code tmpdir filename N mode pieces cb fault rands ofaults true fs _ _ fails heq,
+      writeFileFull_eq code tmpdir filename N mode pieces cb fault rands ofaults false fs _ _ fails heq]
+  · unfold writeFileFull
+    generalize createWithMode code tmpdir filename mode rands ofaults fs = r at hno
+    obtain ⟨r1, r2⟩ := r
+    cases r1 with
+    | ok f => exact absurd rfl (hno f)
+    | invalid => rfl
+    | temp e => rfl
+
+/-- **what a failed complete call leaves behind**: every path except the temporary file is exactly as before (the
+    destination included); the temporary file is gone too unless it was the unlink that failed — then, and only then,
+    it may remain (with whatever had been written to it) -/
+theorem full_failure_leaves_only_the_temp (u : Nat) (code : Str → Path) (tmpdir filename c : Str) (N mode : Nat)
+    (pieces : List Bytes) (cb : CbMode) (fault : Fault) (rands : Nat → Nat) (ofaults : Nat → Option OpenFault)
+    (unlinkFails : Bool) (fs : FS) (hv : validName filename = some c)
+    (hclash : fs (code c) ≠ none ∨ ∀ j, code (tempName tmpdir (dirOf c) safePattern (rands j)) ≠ code c)
+    (hf : (writeFileFull code tmpdir filename N mode pieces cb fault rands ofaults unlinkFails fs).1 ≠ .res .ok) :
+    run2 u fs (writeFileFull code tmpdir filename N mode pieces cb fault rands ofaults unlinkFails fs).2 (code c) =
+      fs (code c) ∧
+    ((∀ f, (createWithMode code tmpdir filename mode rands ofaults fs).1 ≠ .ok f) →
+      run2 u fs (writeFileFull code tmpdir filename N mode pieces cb fault rands ofaults unlinkFails fs).2 = fs) ∧
+    (∀ f, (createWithMode code tmpdir filename mode rands ofaults fs).1 = .ok f →
+      (∀ q, q ≠ f.tmp →
+        run2 u fs (writeFileFull code tmpdir filename N mode pieces cb fault rands ofaults unlinkFails fs).2 q = fs q) ∧
+      (unlinkFails = false →
+        run2 u fs (writeFileFull code tmpdir filename N mode pieces cb fault rands ofaults unlinkFails fs).2 = fs)) := by
+  obtain ⟨fails, hfail, _, hcase⟩ := createWithMode_spec code tmpdir filename mode rands ofaults fs
+  rcases hcase with ⟨c', j, hv', _, _, heq, hfree, _⟩ | ⟨hno, hacts⟩
+  · rw [hv] at hv'; cases hv'
+    have hne : code (tempName tmpdir (dirOf c) safePattern (rands j)) ≠ code c := by
+      rcases hclash with h | h
+      · intro e; rw [e] at hfree; exact h hfree
+      · exact h j
+    rw [writeFileFull_eq code tmpdir filename N mode pieces cb fault rands ofaults unlinkFails fs _ _ fails heq] at hf ⊢
+    simp only at hf ⊢
+    have hf' : (writeFile (code (tempName tmpdir (dirOf c) safePattern (rands j))) (code c) N mode pieces cb fault).1 ≠ .ok :=
+      fun e => hf (by rw [e])
+    -- the state at the end, for every path but the temporary file
+    have key : ∀ q, q ≠ code (tempName tmpdir (dirOf c) safePattern (rands j)) →
+        run2 u fs (fails ++ mapU unlinkFails
+          (writeFile (code (tempName tmpdir (dirOf c) safePattern (rands j))) (code c) N mode pieces cb fault).2) q = fs q := by
+      intro q hq
+      rw [run2_append, run2_fails u fs fails hfail]
+      cases unlinkFails with
+      | false =>
+        rw [mapU_false, run2_map_base, failure_clean u fs _ (code c) hne N mode pieces cb fault hfree hf']
+      | true =>
+        have hf'' := hf'
+        rw [writeFile_closed] at hf'' ⊢
+        obtain ⟨ws, tl, hacts, hws, htl, hiff, _⟩ :=
+          writeFile_shape (code (tempName tmpdir (dirOf c) safePattern (rands j))) (code c) N mode pieces fault
+        have hnc : tl ≠ [.close _, .rename _ (code c)] := fun e => hf'' (hiff.mpr e)
+        have hpre : ∀ a ∈ [Act.createExcl (code (tempName tmpdir (dirOf c) safePattern (rands j))) mode] ++ ws,
+            isUnlink a = false := by
+          intro a ha
+          rcases List.mem_append.mp ha with h | h
+          · simp at h; subst h; rfl
+          · exact onlyWrites_noUnlink _ ws hws a h
+        obtain ⟨body, hbody, hsplit, hmem⟩ := (tail_unlinkLast _ (code c) _ tl hpre htl).2 hnc
+        rw [hacts, hsplit, mapU_true_final u fs body hbody]
+        apply run_untouched
+        intro a ha
+        rcases hmem a ha with h | rfl | rfl | rfl
+        · rcases List.mem_append.mp h with h | h
+          · simp at h; subst h; simp [targets, hq]
+          · exact onlyWrites_targets _ q hq ws hws a h
+        · simp [targets]
+        · simp [targets]
+        · simp [targets]
+    refine ⟨key (code c) (fun e => hne e.symm), fun hno => absurd (by rw [heq]) (hno _), ?_⟩
+    intro f hfe
+    rw [heq] at hfe
+    simp only [CreateRes.ok.injEq] at hfe
+    subst hfe
+    refine ⟨key, ?_⟩
+    intro hu
+    subst hu
+    rw [run2_append, run2_fails u fs fails hfail, mapU_false, run2_map_base,
+      failure_clean u fs _ (code c) hne N mode pieces cb fault hfree hf']
+  · have hacts' : (writeFileFull code tmpdir filename N mode pieces cb fault rands ofaults unlinkFails fs).2 = fails := by
+      unfold writeFileFull
+      generalize createWithMode code tmpdir filename mode rands ofaults fs = r at hno hacts
+      obtain ⟨r1, r2⟩ := r
+      cases r1 with
+      | ok f => exact absurd rfl (hno f)
+      | invalid => exact hacts
+      | temp e => exact hacts
+    rw [hacts', run2_fails u fs fails hfail]
+    exact ⟨rfl, fun _ => rfl, fun f hfe => absurd hfe (hno f)⟩
+
+/-- **which cleanup reports the unlink error**: `Close` without `Commit` returns it when (and only when) closing the
+    descriptor succeeded; `Commit` never does — it returns the close or rename error that sent it to the cleanup.
+    In both the destination is not named by any action. -/
+theorem unlink_error_reporting (f : File) (hc : f.committed = false) (hcl : f.closed = false) (hfd : f.fdOpen = true)
+    (a b : Bool) :
+    (f.closeU false true).2.1 = .errno ∧ (f.closeU true true).2.1 = .errno ∧
+    (f.closeU false false).2.1 = .ok ∧
+    (f.commitU a b true).2.1 = (f.commit a b).2.1 ∧
+    (∀ x ∈ (f.closeU a true).2.2, x = .base (.close f.tmp) ∨ x = .base (.closeFail f.tmp) ∨ x = .unlinkFail f.tmp) := by
+  refine ⟨by simp [File.closeU, hc, hcl, hfd], by simp [File.closeU, hc, hcl, hfd], by simp [File.closeU, hc, hcl, hfd],
+    by rw [commitU_eq], ?_⟩
+  intro x hx
+  cases a <;> simp [File.closeU, hc, hcl, hfd, rmAct] at hx <;> rcases hx with rfl | rfl <;> simp
+
+/-- **shape of the temporary name**: the prefix computed from directory and pattern, then at least one decimal digit
+    and nothing but decimal digits, then the suffix -/
+theorem temp_name_shape (tmpdir dir pat : Str) (r : Nat) :
+    ∃ digits : Str, digits ≠ [] ∧ (∀ ch ∈ digits, ch.isDigit = true) ∧
+      tempName tmpdir dir pat r = tempPrefix tmpdir dir pat ++ digits ++ (splitStar pat).2 :=
+  ⟨decimal r, (decimal_digits r).1, (decimal_digits r).2, rfl⟩
+
+/-- **look-alikes**: the candidate names of `safe.Create` are `<prefix><digits>`; a destination that does not start with
+    that prefix, or continues after it with anything that is not a decimal digit (`safe2023-q4.csv`, `safe1.db`,
+    `safe`, `safe*`), is never a candidate name — for every random number and every injective naming of paths -/
+theorem no_clash_unless_lookalike (code : Str → Path) (hinj : ∀ a b, code a = code b → a = b) (tmpdir c : Str)
+    (h : ¬ (tempPrefix tmpdir (dirOf c) safePattern <+: c) ∨
+      ∃ rest, c = tempPrefix tmpdir (dirOf c) safePattern ++ rest ∧ (rest = [] ∨ ∃ ch ∈ rest, ch.isDigit = false)) :
+    ∀ r, code (tempName tmpdir (dirOf c) safePattern r) ≠ code c := by
+  intro r e
+  have hname := hinj _ _ e
+  have hsuf : (splitStar safePattern).2 = [] := by decide
+  unfold tempName at hname
+  rw [hsuf, List.append_nil] at hname
+  rcases h with h | ⟨rest, hc, hrest⟩
+  · exact h ⟨decimal r, hname⟩
+  · generalize tempPrefix tmpdir (dirOf c) safePattern = pre at hname hc
+    rw [hc] at hname
+    have hd := List.append_cancel_left hname
+    rcases hrest with h0 | ⟨ch, hmem, hnd⟩
+    · exact (decimal_digits r).1 (by rw [hd, h0])
+    · have := (decimal_digits r).2 ch (by rw [hd]; exact hmem)
+      rw [this] at hnd; cases hnd
+
+/-! non-vacuity of the extension, and the one case the hypothesis `hclash` excludes -/
+
+/-- `codeStr`, the naming the driver runs, is injective -/
+example : ∀ a b : Str, codeStr a = codeStr b → a = b := codeStr_inj
+
+/-- the candidate names of `safe.Create("/d/x")` are `/d/safe<digits>` -/
+example : tempName "/tmp".toList (dirOf "/d/x".toList) safePattern 123 = "/d/safe123".toList := by decide
+
+/-- `safe2023-q4.csv` is not a candidate name (hypothesis of `no_clash_unless_lookalike` met) -/
+example : ∃ rest, "/d/safe2023-q4.csv".toList = tempPrefix "/tmp".toList (dirOf "/d/safe2023-q4.csv".toList) safePattern ++ rest ∧
+    (rest = [] ∨ ∃ ch ∈ rest, ch.isDigit = false) :=
+  ⟨"2023-q4.csv".toList, by decide, Or.inr ⟨'-', by decide, by decide⟩⟩
+
+/-- three collisions, then a free name: the loop retries and creates the fourth candidate -/
+example : (createWithMode codeStr "/tmp".toList "/d/x".toList 0o644 (fun i => i)
+      (fun i => if i < 3 then some .exist else none) (fun _ => none)).1 =
+    .ok { tmp := codeStr "/d/safe3".toList, dst := codeStr "/d/x".toList } := by decide
+
+/-- names that are refused: `/` (ends in a separator after cleaning) -/
+example : validName "/".toList = none := by decide
+example : validName "".toList = some ".".toList := by decide
+
+/-- **the excluded case is real**: an ABSENT destination whose name is itself a candidate name (`/d/safe123`) and a
+    random source that yields that number: `O_EXCL` accepts the name, the "temporary" file IS the destination — after
+    the first system call the destination exists as an empty file although nothing has been committed (here the
+    callback then fails; the cleanup removes the file again).  Probability 2⁻⁶³ per attempt with the crypto source. -/
+example : run2 0o22 (fun _ => none)
+      ((writeFileFull codeStr "/tmp".toList "/d/safe123".toList 4 0o644 [[1, 2, 3]] .propagate (.callback 1)
+        (fun _ => 123) (fun _ => none) false (fun _ => none)).2.take 1) (codeStr "/d/safe123".toList) =
+    some ⟨[], 0o644⟩ := by decide
 
 end C14
